@@ -70,7 +70,9 @@ def settle(taxa):
     if not taxa:
         return tuple(taxa)
     t = len(taxa[0][2])
-    cm = [colmax(taxa, c) for c in range(t)]
+    # the magnitude the real column can have: the raw values plus the rounding residue the cells already carry (a raw 0
+    # that went through a 1e6 context is stored as ~1e-10, and a fresh cell joining it is rounded in THAT context)
+    cm = [max([0.0] + [abs(float(tx[2][c])) + TOL * tx[3][c] for tx in taxa if tx[2][c] is not None]) for c in range(t)]
     return tuple((tx[0], tx[1], tx[2], tuple(max(tx[3][c], cm[c]) for c in range(t))) for tx in taxa)
 
 
